@@ -73,6 +73,14 @@ fn main() {
     let threads = std::env::var("VERIF_THREADS").ok().and_then(|s| s.parse().ok()).unwrap_or(16);
     let ctx = Ctx { tier, seed: ev::seed_from_env(), replay, threads };
     vcore::lw::quiet_panics();
+    // time budget: exceeding it is "inconclusive", never a violation
+    let budget: u64 = std::env::var("VERIF_TIME_BUDGET_S").ok().and_then(|s| s.parse().ok()).unwrap_or(if tier == Tier::Quick { 840 } else { 6 * 3600 });
+    std::thread::spawn(move || {
+        std::thread::sleep(std::time::Duration::from_secs(budget));
+        eprintln!("inconclusive: time budget of {budget} s exceeded");
+        let _ = std::process::Command::new("pkill").args(["-P", &std::process::id().to_string()]).status();
+        std::process::exit(2);
+    });
     let res = std::panic::catch_unwind(|| checks::run(&id, &ctx));
     match res {
         Ok(code) => std::process::exit(code),
